@@ -18,7 +18,6 @@ import (
 	"errors"
 	"fmt"
 	"io"
-	"math/big"
 	"net/http"
 	"net/http/httptest"
 	"os"
@@ -160,12 +159,17 @@ func (t *c01tab) did(i int) int {
 func (t *c01tab) coq() string {
 	xs := make([]string, len(t.items))
 	for i, b := range t.items {
-		// the bytes as one little-endian base-256 number (one token instead of len(b): Coq parses it much faster)
-		rev := make([]byte, len(b))
-		for j, x := range b {
-			rev[len(b)-1-j] = x
+		// the bytes packed 7 per primitive integer, little-endian (Coq parses primitive integer
+		// literals natively: much faster than one numeral per byte)
+		var ws []string
+		for j := 0; j < len(b); j += 7 {
+			var w uint64
+			for k := 0; k < 7 && j+k < len(b); k++ {
+				w |= uint64(b[j+k]) << (8 * uint(k))
+			}
+			ws = append(ws, strconv.FormatUint(w, 10)+"%uint63")
 		}
-		xs[i] = fmt.Sprintf("(%d, %s, %d)", len(b), new(big.Int).SetBytes(rev).String(), t.did(i))
+		xs[i] = fmt.Sprintf("(%d, %s, %d)", len(b), verifhlib.List(ws), t.did(i))
 	}
 	return verifhlib.List(xs)
 }
